@@ -37,6 +37,8 @@ esac
 [ -n "${DEMO_DIR:-}" ] && sub=$DEMO_DIR
 [ -z "$sub" ] && sub=.
 run=$(grep -m1 -oE "\-run[ =]'?[A-Za-z0-9_^\$|/]+" "$demo" | sed -E "s/-run[ =]'?//")
+[ -n "${DEMO_RUN:-}" ] && run=$DEMO_RUN
+case "$run" in Test*|^Test*|.) ;; *) run=$(grep -m1 -oE "^func (Test[A-Za-z0-9_]+)" "$demo" | sed -E 's/^func //') ;; esac
 [ -z "$run" ] && run=.
 cp "$demo" "$sub/zz_seeded_demo_test.go"
 clean_res=$(go test -vet=off -count=1 -run "$run" "./$sub" 2>&1 | tail -3)
